@@ -77,6 +77,8 @@ class ConnectionWorld(World):
             kmax = rc.choice([1, 3, 3, 6, 0, 0.5, 2.5])
             cfg["kmax"] = kmax
             cfg["delay_k"] = self._delay_pattern(rc, nsyn, kmax, prop)
+        via = stream(seed, "via")
+        cfg["via"] = {"dt0": via.choice(DTS), "B0": via.choice([1, 2, 4]), "order": via.choice(["dt_batchsz", "batchsz_dt"])} if via.random() < 0.25 else None
         nin = cfg["B"] * int(np.prod(cfg["inshape"]))
         ops = []
         for _ in range(ro.randint(4, 28 if tier == "thorough" else 20)):
@@ -144,6 +146,17 @@ class ConnectionWorld(World):
         from inferno import neural as nn_
 
         ck, dt, B = cfg["ckind"], cfg["dt"], cfg["B"]
+        via = cfg.get("via")
+        if via:
+            # reach the step time / batch size / maximum delay through the property setters, then start from a cleared state
+            conn = self._build(dict(cfg, via=None, dt=via["dt0"], B=via["B0"]), delayed, ctx)
+            for a in via["order"].split("_"):
+                setattr(conn, a, dt if a == "dt" else B)
+            if delayed:
+                conn.synapse.delay = cfg["kmax"] * dt
+            conn.clear()
+            ctx.fault("configured_through_setters")
+            return conn
         syn = synapse_ctor(cfg["skind"], cfg)
         delay = cfg["kmax"] * dt if delayed else None
         ws = cfg["wseed"]
